@@ -87,7 +87,7 @@ fn gen_plan(seed: u64) -> BucketPlan {
         _ => Through::LocalVec,
     };
     let n = 1 + r.below(10) as usize;
-    let mut pool: Vec<f64> = vec![f64::NAN, f64::INFINITY, f64::NEG_INFINITY, 0.0, -0.0, 5e-324, -5e-324, 1e308, -1e308, 0.1, 0.2, 0.30000000000000004];
+    let mut pool: Vec<f64> = vec![f64::NAN, -f64::NAN, f64::from_bits(0x7ff0_0000_0000_0001), f64::from_bits(0xfff8_0000_0000_00ff), f64::INFINITY, f64::NEG_INFINITY, 0.0, -0.0, 5e-324, -5e-324, 1e308, -1e308, 0.1, 0.2, 0.30000000000000004];
     for b in &bounds {
         pool.push(*b);
         pool.push(next_up(*b));
